@@ -240,7 +240,20 @@ def make_req(avoid_blockram):
     return contract
 
 
+# Caller side (w1_usb2_glue): the clear-halt record produced by the request handler (REQ) reaches every endpoint (IN, OUT) with
+# enable, direction and number intact; the toggles the endpoints drive / compare are the ones the transmitter sends
+# (tx_pid_toggle -> data_pid) and the receiver saw (active_pid[3] -> rx_pid_toggle); tokens and handshakes are the device's.
+WIRING = ("clear_halt", "tx", "rx", "tokenizer", "handshakes_in", "handshakes_out")
+
+
 def contracts(tier):
+    from .w1_usb2_glue import mux_wiring, device_wiring
+    yield ("USBEndpointMultiplexer", "wiring_3_interfaces", mux_wiring(3, WIRING))
+    yield ("USBDevice", "wiring_utmi", device_wiring("utmi", WIRING))
+    if tier != "quick":
+        yield ("USBEndpointMultiplexer", "wiring_1_interface", mux_wiring(1, WIRING))
+        yield ("USBEndpointMultiplexer", "wiring_2_interfaces", mux_wiring(2, WIRING))
+        yield ("USBDevice", "wiring_ulpi", device_wiring("ulpi", WIRING))
     yield ("USBStreamInEndpoint", "max8", make_in("endpoint", 8))
     yield ("USBInTransferManager", "max8", make_in("manager", 8))
     yield ("USBStreamOutEndpoint", "max8", make_out(8))
